@@ -24,7 +24,7 @@ RULE = ("P: all 2879 offsets x {none, .5, .123456, .000001} x Z form (exhaustive
         "non-zero minutes, late or redelivered delivery, or a deadline that is actually hit; distinct by canonical JSON of the case")
 ASSUMPTIONS = ["a reply due at exactly the deadline instant is unspecified (both are enabled at the same instant)", "lower-case 't'/'z' and leap seconds are not generated",
                "virtual clock replaces time/datetime as module attributes (DESIGN.md section 3)"]
-FLOORS = {"evaluations": 12000, "parsed_compared": 11000, "wait_cases": 200, "wait_late_or_redelivered": 80, "task_timeout_cases": 60, "execution_timeout_cases": 40,
+FLOORS = {"fanout_wait_cases": 60, "evaluations": 12000, "parsed_compared": 11000, "wait_cases": 200, "wait_late_or_redelivered": 80, "task_timeout_cases": 60, "execution_timeout_cases": 40,
           "nontrivial": 6000, "timers_fired_observed": 300}
 SHARDS = {"quick": 16, "thorough": 16}
 TECHNIQUE = "exhaustive differential of the timestamp parser + virtual-clock monitors on Wait/timeout instants under injected delivery delays, crashes and time zones"
@@ -159,6 +159,49 @@ def wait_case(ctx, rng, k):
             ctx.violation("wait-completed-late-or-at-wrong-instant", wit, None)
         if ctx.counters["wait_cases"] % 37 == 1:
             ctx.sample(wit)
+
+
+def fanout_wait_case(ctx, rng, k):
+    """Waits and Task time-outs inside Map iterations that run in MaxConcurrency batches, and inside Parallel branches that start late:
+    every one of them is measured from the instant ITS state was entered, not from the instant the fan-out (or an earlier batch) was."""
+    n = rng.randint(2, 4)
+    mc = rng.randint(1, n)
+    dur = rng.choice([1, 2, 5, 10])
+    what = ["wait", "task-timeout", "wait-after-task"][k % 3]
+    tz = TZS[k % len(TZS)]
+    if what == "wait":
+        proc = F.chain([("I1", F.W(dur)), ("I2", F.T("mark"))])
+        per_item = dur
+    elif what == "task-timeout":
+        proc = {"StartAt": "I1", "States": {"I1": dict(F.T("silent"), TimeoutSeconds=dur, Catch=[{"ErrorEquals": ["States.Timeout"], "ResultPath": "$.e", "Next": "I2"}], Next="I2"),
+                                            "I2": dict(F.T("mark"), End=True)}}
+        per_item = dur
+    else:
+        proc = F.chain([("I0", F.T("slow1")), ("I1", F.W(dur)), ("I2", F.T("mark"))])
+        per_item = dur + 1
+    asl = F.chain([("Fan", {"Type": "Map", "ItemsPath": "$.items", "MaxConcurrency": mc, "ItemProcessor": proc, "ResultPath": "$.out"}), ("Done", F.P())])
+    items = [{"id": "it%d" % i, "i": i} for i in range(n)]
+    scn = {"machines": {"m": {"asl": asl}}, "funcs": {"mark": ["echo"], "silent": ["silent"], "slow1": ["slow", 1]},
+           "starts": [{"machine": "m", "name": "e", "input": {"items": items}}], "config": {"tz": tz, "execution_ttl": 5000}}
+    ctx.evaluation(); ctx.count("fanout_wait_cases")
+    case = dict(kind="batched-map-" + what, n=n, max_concurrency=mc, duration=dur, tz=tz)
+    ctx.nontrivial(case)
+    run = S.execute(scn, seed=ctx.seed, monitors=("notes",), settle=False)
+    try:
+        got = sorted(round(r["t"], 6) for r in run.requests.get("mark", []))
+        # batch b (0-based) starts when batch b-1 has finished: at b * per_item; its items reach "mark" per_item later
+        want = sorted(round((i // mc + 1) * per_item, 6) for i in range(n))
+        ctx.count("timers_fired_observed", len(got))
+        st, out, err, t = run.outcomes.get(run.execs[0], ("NONE", None, None, None))
+        wit = S.witness_of(run, dict(case=case, expected_instants=want, engine_instants=got, status=st, error=err))
+        if st != "SUCCEEDED" or len(got) != len(want):
+            ctx.violation("batched-fan-out-did-not-complete", wit, None)
+        elif any(g < w_ - 1e-6 for g, w_ in zip(got, want)):
+            ctx.violation("wait-or-time-out-in-a-later-batch-fired-EARLY", wit, None)
+        elif any(abs(g - w_) > 1e-6 for g, w_ in zip(got, want)):
+            ctx.violation("wait-or-time-out-in-a-batch-fired-at-wrong-instant", wit, None)
+    finally:
+        S.close(run)
 
 
 # ----------------------------------------------------------------------------- T / E: timeouts through the scenario runner (monitors attached)
@@ -298,6 +341,9 @@ def run(ctx):
     for k in range(n_to):
         if ctx.mine(k):
             timeout_case(ctx, ctx.rng("to", k), k)
+    for k in range(ctx.pick(90, 2000)):
+        if ctx.mine(k):
+            fanout_wait_case(ctx, ctx.rng("fw", k), k)
 
 
 def witnesses(ctx):
